@@ -1,6 +1,7 @@
 """C02 -- JSON wire round trip and agreement of all entry points (spec/Codec.tla, Codec_Trace.tla)."""
 from __future__ import annotations
 
+import collections
 import json
 import random
 import warnings
@@ -51,6 +52,42 @@ def str_keyed(T, defs, seen=()):
     return True
 
 
+class KeyStr(str):
+    """A str subclass: equal to, and hashing like, the plain text it holds."""
+    __slots__ = ()
+
+
+def widen_keys(T, v, depth=0):
+    """v with the keys of its str-keyed mappings (at positions declared as mappings) replaced by equal instances of a str
+    subclass; None if nothing could be widened.  The result is == v, so every law of C02 applies to it as it does to v."""
+    hit = [False]
+
+    def go(T, v, depth):
+        k = T["k"]
+        if depth > 6:
+            return v
+        while k in ("newtype", "alias", "salias", "final"):
+            T = T["a"]; k = T["k"]
+        if k == "map" and type(v) is dict:
+            out = {}
+            for a, b in v.items():
+                if type(a) is str:
+                    a = KeyStr(a); hit[0] = True
+                out[a] = go(T["va"], b, depth + 1)
+            return out
+        if k == "coll" and type(v) in (list, tuple, collections.deque):
+            return type(v)(go(T["a"], x, depth + 1) for x in v)
+        if k == "tup" and type(v) is tuple and len(v) == len(T["xs"]):
+            return tuple(go(t, x, depth + 1) for t, x in zip(T["xs"], v))
+        if k == "union" and v is not None:
+            nn = [m for m in T["xs"] if not (m["k"] == "prim" and m["n"] == "NoneType")]
+            if len(nn) == 1:
+                return go(nn[0], v, depth + 1)
+        return v
+    w = go(T, v, depth)
+    return w if hit[0] else None
+
+
 def json_safe(w):
     """ints within 64 bits, finite floats, valid Unicode: the domain of the default encoder."""
     if isinstance(w, bool) or w is None:
@@ -91,14 +128,21 @@ def collect(ctx: Ctx, profile: str):
         if not is_bytes and type_ambiguous(T, defs, env, rng):
             continue          # ambiguous unions do not round-trip by C01's own weak law
         vals = fixed_vals if is_bytes else values(T, env, rng, 2)
-        for j, v in enumerate(vals):
+        if not is_bytes:
+            # the same values with str-subclass keys in their mappings (== the plain value: same laws, same expected results)
+            vals = [(v, v) for v in vals] + [(w, v) for v in vals for w in [widen_keys(T, v)] if w is not None]
+        else:
+            vals = [(v, v) for v in vals]
+        for j, (v, plain) in enumerate(vals):
             try:
                 m = typelib.marshal(v, t=ann)
             except Exception:
                 continue
             if not is_bytes and not json_safe(m):
                 continue
-            vt = project(v)
+            vt = project(plain)
+            if v is not plain:
+                m = typelib.marshal(plain, t=ann)       # what the wire form must be: that of the equal plain value
             for cname, enc, dec in cfgs:
                 kw = {} if enc is None else {"encoder": enc, "decoder": dec}
                 e_enc = enc or compat.json.dumps
@@ -124,7 +168,7 @@ def collect(ctx: Ctx, profile: str):
                     if is_bytes and r1 is not None:
                         ev["verbatim"] = ev["verbatim"] and type(r1) is type(v) and r1 == v
                 events.append(ev)
-                meta.append({"T": T, "cfg": cname, "value": repr(v)[:80]})
+                meta.append({"T": T, "cfg": cname, "value": repr(v)[:80], "str_subclass_keys": v is not plain})
     return events, meta, model, len(work)
 
 
